@@ -219,13 +219,38 @@ func firstLine(s string) string {
 }
 
 // Survey generates and evaluates, par subprocesses at a time, appending to outFile.
-func Survey(self, repo, verif string, props []string, only string, par int, outFile string) error {
-	env, err := core.Load(repo, nil)
-	if err != nil {
-		return err
+func Survey(self, repo, verif string, props []string, only string, par int, outFile string, retest string) error {
+	var ms []Mutant
+	if retest != "" {
+		// re-evaluate the mutants of an earlier survey that survived (and, when filtered by the test-suite, passed the tests)
+		f, err := os.Open(retest)
+		if err != nil {
+			return err
+		}
+		sc := bufio.NewScanner(f)
+		sc.Buffer(make([]byte, 1<<20), 1<<24)
+		for sc.Scan() {
+			var raw map[string]interface{}
+			var o MutOutcome
+			if json.Unmarshal(sc.Bytes(), &o) != nil || json.Unmarshal(sc.Bytes(), &raw) != nil {
+				continue
+			}
+			if o.Outcome != "survived" {
+				continue
+			}
+			if t, ok := raw["tests"]; ok && t != "tests-pass" {
+				continue
+			}
+			ms = append(ms, o.Mutant)
+		}
+		f.Close()
+	} else {
+		env, err := core.Load(repo, nil)
+		if err != nil {
+			return err
+		}
+		ms = GenMutants(env, props, only)
 	}
-	ms := GenMutants(env, props, only)
-	env = nil
 	done := map[string]bool{}
 	if f, err := os.Open(outFile); err == nil {
 		sc := bufio.NewScanner(f)
